@@ -92,15 +92,15 @@ let run (op_full : string) (a : string array) : string =
   | "strip_nulls" -> show_buf prefix (strip_nulls_m (unhex a.(0)) prefix)
   | "build_array" -> show_buf prefix (build_array_m (hexlist a.(0)) prefix)
   | "build_object" -> show_buf prefix (build_object_m (hexlist a.(0)) (hexlist a.(1)) prefix)
-  | "select" -> show_sel prefix (select_m (unhex a.(0)) (parse_jsonpath a.(1)) (mode_of a.(2)) prefix)
-  | "sel_exists" -> show_res show_bool (sel_exists_m (unhex a.(0)) (parse_jsonpath a.(1)))
-  | "sel_predicate_match" -> show_res show_bool (sel_predicate_match_m (unhex a.(0)) (parse_jsonpath a.(1)))
-  | "get_by_path" -> show_sel prefix (get_by_path_m (unhex a.(0)) (parse_jsonpath a.(1)) prefix)
-  | "get_by_path_first" -> show_sel prefix (get_by_path_first_m (unhex a.(0)) (parse_jsonpath a.(1)) prefix)
-  | "get_by_path_array" -> show_sel prefix (get_by_path_array_m (unhex a.(0)) (parse_jsonpath a.(1)) prefix)
+  | "select" -> show_sel prefix (select_w (unhex a.(0)) (parse_jsonpath a.(1)) (mode_of a.(2)) prefix)
+  | "sel_exists" -> show_res show_bool (sel_exists_w (unhex a.(0)) (parse_jsonpath a.(1)))
+  | "sel_predicate_match" -> show_res show_bool (sel_predicate_match_w (unhex a.(0)) (parse_jsonpath a.(1)))
+  | "get_by_path" -> show_sel prefix (get_by_path_w (unhex a.(0)) (parse_jsonpath a.(1)) prefix)
+  | "get_by_path_first" -> show_sel prefix (get_by_path_first_w (unhex a.(0)) (parse_jsonpath a.(1)) prefix)
+  | "get_by_path_array" -> show_sel prefix (get_by_path_array_w (unhex a.(0)) (parse_jsonpath a.(1)) prefix)
   | "path_batch" ->
       let root = unhex a.(0) in
-      let f = match a.(1) with "get_by_path" -> get_by_path_m | "get_by_path_first" -> get_by_path_first_m | _ -> get_by_path_array_m in
+      let f = match a.(1) with "get_by_path" -> get_by_path_w | "get_by_path_first" -> get_by_path_first_w | _ -> get_by_path_array_w in
       let rec go i data offs =
         if i >= Array.length a then "ok " ^ hex data ^ " " ^ show_offs offs
         else match f root (parse_jsonpath a.(i)) data with
@@ -108,8 +108,8 @@ let run (op_full : string) (a : string array) : string =
           | Err e -> "err " ^ show_err e ^ " " ^ hex data ^ " " ^ show_offs offs
           | Panic -> "panic" in
       go 2 prefix []
-  | "path_exists" -> show_res show_bool (path_exists_m (unhex a.(0)) (parse_jsonpath a.(1)))
-  | "path_match" -> show_res show_bool (path_match_m (unhex a.(0)) (parse_jsonpath a.(1)))
+  | "path_exists" -> show_res show_bool (path_exists_w (unhex a.(0)) (parse_jsonpath a.(1)))
+  | "path_match" -> show_res show_bool (path_match_w (unhex a.(0)) (parse_jsonpath a.(1)))
   | "parse_json_path" ->
       show_res (fun ps -> show_paths ps ^ " " ^ hex (show_json_path float_placeholder ps)) (parse_json_path (unhex a.(0)))
   | "print_json_path" -> "ok " ^ hex (show_json_path float_placeholder (parse_jsonpath a.(0)))
